@@ -18,6 +18,7 @@ class DType(AbsInt):
     def __init__(self, idx, operand):
         super().__init__(idx)
         self.operand = operand
+        self.scatters = []  # (update_array call, function, buffer dtype sources, value dtype sources, sources lost)
 
     def unknown(self, why=""):
         return UNK
@@ -121,6 +122,10 @@ class DType(AbsInt):
         if name == "promote_types":
             return frozenset().union(*args) if args else E
         if name == "update_array":
+            # writing into a buffer keeps the buffer's dtype: an operand whose dtype the buffer's does not cover is cast down
+            if len(args) >= 2:
+                lost = (args[1] & {"op", "arg"}) - args[0]
+                self.scatters.append((node, ctx.fi if ctx is not None else None, args[0], args[1], frozenset(lost)))
             return args[0] if args else UNK
         if name in ("get_device", "get_default_device", "device", "arange", "argsort", "finfo"):
             return E
